@@ -851,13 +851,20 @@ func uniqueSorted(xs []string) []string {
 }
 
 func (v *Verifier) assumeAxiom(s *State, env *CEnv, ax *Axiom) {
+	q0 := v.inQuant
 	defer func() {
 		if r := recover(); r != nil {
-			if se, ok := r.(subsetError); ok {
+			v.inQuant = q0 // a skipped axiom must not leave the translator "inside a quantifier"
+			// only an axiom about types / package-local spec functions that are not in scope
+			// for this function may be skipped; any other translation error is a tool error
+			if se, ok := r.(subsetError); ok && (strings.Contains(se.msg, "unknown type") || strings.Contains(se.msg, "unknown function")) {
 				if os.Getenv("GVC_DEBUG") != "" {
 					fmt.Fprintf(os.Stderr, "axiom %s skipped: %v\n", ax.Name, se)
 				}
 				return
+			}
+			if se, ok := r.(subsetError); ok {
+				panic(subsetError{msg: "axiom " + ax.Name + ": " + se.msg})
 			}
 			panic(r)
 		}
